@@ -5,7 +5,8 @@ from .hist import history  # noqa: F401  (resolved by the runner)
 PROPS = ["C01"]
 META = dict(
     module="scenarios.c01_ledger", level="model_checking",
-    bounds=dict(quick=hist.BOUNDS_QUICK, thorough=hist.BOUNDS_THOROUGH),
+    bounds=dict(quick=hist.BOUNDS_QUICK + "; loans plans with loan amounts carrying 3 decimals more than the "
+                "symbol's precision", thorough=hist.BOUNDS_THOROUGH),
     stubs=hist.BASE_STUBS, assumptions=hist.BASE_ASSUMPTIONS,
     outside=hist.BASE_OUTSIDE,
     required_covers=["end of history", "an order was accepted", "a request was rejected: place"],
@@ -17,4 +18,12 @@ def plans(tier):
 
 
 def jobs(tier):
-    return hist.jobs_for(PROPS, plans(tier))
+    return hist.jobs_for(PROPS, plans(tier)) + extra_jobs(tier)
+
+
+def extra_jobs(tier):
+    # loan amounts finer than the symbol's precision (creating / repaying them must not change any total)
+    ps = [dict(plan="loans", depth=2, bp=8, qp=2, lend="margin", namounts=1, closes=hist.CLOSES, kinds=["limit"],
+               auto_borrow=False, auto_repay=ar, loan_symbol=ls, loan_extra_decimals=3)
+          for ar in (False, True) for ls in ("USD", "BTC")]
+    return hist.jobs_for(PROPS, ps)
